@@ -4,6 +4,8 @@ import (
 	"bytes"
 	"crypto/sha256"
 	"fmt"
+	"github.com/itchio/wharf/pwr"
+	"io"
 	"path/filepath"
 	"runtime"
 	"strings"
@@ -177,7 +179,35 @@ func c15Run(c lib.Case, env *lib.Env) lib.Result {
 		sw := &yieldWriter{rng: lib.NewRng(lib.Mix(cs, 2))}
 		var sp *lib.ShortReadPool
 		var err error
+		if run == 1 && s.Shape != "bigfresh" {
+			// this run's DiffContext object has diffed before: against a decoy old build with the same paths, sizes and
+			// block counts but other content
+			decoy := lib.NewBuild()
+			for _, e := range pair.Old.Sorted() {
+				switch e.Kind {
+				case lib.KFile:
+					d := append([]byte(nil), e.Data...)
+					for i := range d {
+						d[i] ^= 0x5c
+					}
+					decoy.PutFile(e.Path, d)
+				case lib.KDir:
+					decoy.PutDir(e.Path)
+				case lib.KSymlink:
+					decoy.PutSymlink(e.Path, e.Dest)
+				}
+			}
+			decoyDir := filepath.Join(env.Scratch, "decoy-old")
+			decoy.Materialize(decoyDir)
+			lib.ReuseDiffCtx = &pwr.DiffContext{}
+			if _, derr := lib.DiffDirs(decoyDir, newDir, s.Comp, nil, io.Discard, io.Discard); derr != nil {
+				lib.ReuseDiffCtx = nil
+			} else {
+				res.Add("diff_runs_on_a_context_that_diffed_before", 1)
+			}
+		}
 		hv := lib.RunWithQuiescence(func() {
+			defer func() { lib.ReuseDiffCtx = nil }()
 			_, err = lib.DiffDirs(oldDir, newDir, s.Comp, func(p lake.Pool) lake.Pool {
 				sp = &lib.ShortReadPool{Inner: p, Rng: lib.NewRng(lib.Mix(cs, 3)), Yield: run > 0, EOFWithData: run%3 == 2}
 				return sp
@@ -264,10 +294,17 @@ func c15Run(c lib.Case, env *lib.Env) lib.Result {
 			op.Comp = &lib.Comp{Algo: "none"}
 			var first []byte
 			var sums []string
+			shared := &lib.OptPools{} // runs 1, 2, 4, 5, ... share pools that earlier runs have used
 			optRuns := s.Runs
 			if s.Shape == "shares" && env.Flavor == "plain" {
 				optRuns = 4 * s.Runs // map-order ties show up in a fraction of the runs only
 			}
+			defer func() {
+				if shared.Target != nil {
+					shared.Target.Close()
+					shared.Source.Close()
+				}
+			}()
 			for run := 0; run < optRuns; run++ {
 				runtime.GOMAXPROCS(procsList[run%len(procsList)])
 				sc := lib.NewSched("perturb", lib.Mix(s.PairSeed, 152, uint64(run)))
@@ -280,7 +317,13 @@ func c15Run(c lib.Case, env *lib.Env) lib.Result {
 					op.Stats = &bsdiff.DiffStats{} // statistics collection on: shared between the scanner's goroutines
 				}
 				var err error
-				hv := lib.RunWithQuiescence(func() { err = lib.Optimize(firstPatch, oldDir, newDir, op, &ob) }, 120*time.Second)
+				hv := lib.RunWithQuiescence(func() {
+					if run%3 == 0 {
+						err = lib.Optimize(firstPatch, oldDir, newDir, op, &ob)
+					} else {
+						err = lib.OptimizeWith(firstPatch, oldDir, newDir, op, &ob, shared)
+					}
+				}, 120*time.Second)
 				lib.SetHook(nil)
 				if !hv.Returned {
 					key := "optimizer-does-not-return"
@@ -370,7 +413,7 @@ func init() {
 	lib.Register(&lib.Property{
 		ID:           "C15",
 		Level:        "exploration",
-		Rule:         "pairs (generic, equal shares of several old files = ties in the optimizer's mapping choice, many tiny files = many per-file goroutine triples, files of 0/1/16K±1/64K/128K+1 bytes); each diffed R times (6 quick / 16 thorough) with a different controller seed per run: source pool slicing every read to a random short length and yielding/spinning/sleeping, patch and signature sinks that perturb the diff and sign goroutines independently, GOMAXPROCS cycling 1/2/4/16; patch and signature bytes must be identical across runs; the optimizer is run R times for three parameter sets with the bsdiff hooks perturbing workers/dispatcher/collector on every other run and must produce identical bytes. The same reduced list runs under the Go race detector; every de-duplicated report with a wharf frame in pwr/diff, multiread, taskgroup, ctxcopy, wsync, bsdiff or pwr/rediff is a violation. distinct = distinct (shape, compression, pair)",
+		Rule:         "pairs (generic, equal shares of several old files = ties in the optimizer's mapping choice, many tiny files = many per-file goroutine triples, files of 0/1/16K±1/64K/128K+1 bytes); each diffed R times (6 quick / 16 thorough) with a different controller seed per run: source pool slicing every read to a random short length and yielding/spinning/sleeping, patch and signature sinks that perturb the diff and sign goroutines independently, GOMAXPROCS cycling 1/2/4/16; the second run uses a DiffContext object that has already diffed a decoy old build with the same paths, sizes and block counts; patch and signature bytes must be identical across runs; the optimizer is run R times for three parameter sets with the bsdiff hooks perturbing workers/dispatcher/collector on every other run and must produce identical bytes (two thirds of the runs share pools that earlier runs used). The same reduced list runs under the Go race detector; every de-duplicated report with a wharf frame in pwr/diff, multiread, taskgroup, ctxcopy, wsync, bsdiff or pwr/rediff is a violation. distinct = distinct (shape, compression, pair)",
 		Assumptions:  []string{"the race detector only sees executed interleavings", "map iteration order cannot be controlled, only sampled by repetition"},
 		Flavors:      func(tier string) []string { return []string{"plain", "race"} },
 		Cases:        c15Cases,
